@@ -13,7 +13,7 @@
 From Strcase Require Import Base Utf8 Spec Kernels Impl Impl5 Impl6 Impl7 Instances X86 X86NonASCII X86IndexByte X86Count X86Countv3.
 From StrcaseGen Require Import AsmProg.
 From StrcaseGen Require Consts Oracle.
-From Strcase Require SrcConsts.
+From Strcase Require SrcConsts IntWidth.
 From Strcase Require Import X86Isa X86IsaInst.
 
 Theorem C14_count_variants_equal : forall s c, wf s -> 0 <= c < 256 ->
@@ -186,3 +186,20 @@ Proof.
   exists fuel. rewrite isa_index_non_ascii_str. exact H.
 Qed.
 Print Assumptions C14_index_non_ascii_on_a_processor_without_avx2.
+
+(* ---- the width of int.  The models compute with unbounded integers.  The only products of lengths in the code are
+   the len*2 / len*3 of the length-ratio shortcuts (10 per package; line numbers and operand types are read from the
+   source on every run): each multiplies an int64, where the product of any 32-bit length is exact; in a 32-bit int
+   it is not — the witness is D8's input (a 715 827 883-byte haystack and a 1-byte needle) ---- *)
+Theorem C14_length_products_do_not_depend_on_the_width_of_int :
+  (forallb snd (StrcaseGen.Consts.str_shortcut_products ++ StrcaseGen.Consts.byt_shortcut_products) = true /\
+   (length StrcaseGen.Consts.str_shortcut_products = 10 /\ length StrcaseGen.Consts.byt_shortcut_products = 10)%nat) /\
+  (forall n k, 0 <= n < 2 ^ 31 -> k = 2 \/ k = 3 -> IntWidth.wrap 64 (n * k) = n * k) /\
+  (forall n k, 0 <= n < 2 ^ 61 -> k = 2 \/ k = 3 -> IntWidth.wrap 64 (n * k) = n * k) /\
+  (exists n m, 0 <= n < 2 ^ 31 /\ 0 < m < 2 ^ 31 /\ (IntWidth.wrap 32 (n * 3) <? m) = true /\ (n * 3 <? m) = false).
+Proof.
+  split; [exact SrcConsts.shortcut_products_in_int64|].
+  split; [exact IntWidth.product_in_int64_exact|].
+  split; [exact IntWidth.product_in_int_exact_64|exact IntWidth.product_in_int32_refuted].
+Qed.
+Print Assumptions C14_length_products_do_not_depend_on_the_width_of_int.
